@@ -18,6 +18,9 @@ pub enum Kind {
     /// the task stalls at a hooked point while every other task runs until nothing is runnable (answer 1 = stall):
     /// on the multi-threaded runtime a worker thread can be descheduled for arbitrarily long between two steps
     Stall,
+    /// the runnable task that is next in line is set aside until nothing else is runnable (answer 1): a task can sit
+    /// in a busy worker's queue for arbitrarily long
+    Postpone,
     /// harness-level data choice (operation, input, fault, abort instant): cost 0
     Data,
 }
@@ -47,6 +50,8 @@ pub struct Task {
     pub kill: bool,
     pub since: u64,
     pub polls: u32,
+    /// set by a `Postpone` choice: the task is not scheduled while anything else is runnable; cleared when it runs
+    pub postponed: bool,
     pub poller: Option<Poller>,
 }
 
@@ -83,6 +88,7 @@ pub struct Shared {
     /// preemption points enabled at all
     pub points_on: bool,
     pub stalls_on: bool,
+    pub postpone_on: bool,
     pub trace: Vec<(u8, u32)>,
     pub panics: Vec<String>,
     pub diverged: Option<String>,
@@ -110,6 +116,7 @@ impl Shared {
             frozen: false,
             points_on: true,
             stalls_on: true,
+            postpone_on: true,
             trace: vec![],
             panics: vec![],
             diverged: None,
@@ -151,6 +158,10 @@ impl Shared {
         v.sort_by(|&a, &b| {
             (self.tasks[a].since, &self.tasks[a].label).cmp(&(self.tasks[b].since, &self.tasks[b].label))
         });
+        // postponed tasks wait until nothing else is runnable
+        if v.iter().any(|&i| !self.tasks[i].postponed) {
+            v.retain(|&i| !self.tasks[i].postponed);
+        }
         v
     }
 
@@ -207,6 +218,7 @@ pub fn step_task(shared: &Sh, id: usize) {
         s.trace.push((d, id as u32));
         let t = &mut s.tasks[id];
         t.runnable = false;
+        t.postponed = false;
         t.polling = true;
         t.polls += 1;
         match t.poller.take() {
@@ -264,7 +276,7 @@ impl Controller for Ctl {
         *n += 1;
         let label = format!("{}#{}", label, n);
         let since = s.step;
-        s.tasks.push(Task { label, runnable: true, done: false, polling: false, kill: false, since, polls: 0, poller: Some(poller) });
+        s.tasks.push(Task { label, runnable: true, done: false, polling: false, kill: false, since, polls: 0, postponed: false, poller: Some(poller) });
         s.tasks.len() - 1
     }
 
@@ -441,7 +453,13 @@ pub async fn run_until(shared: &Sh, max_steps: usize, stop: &dyn Fn(&Shared) -> 
                 None
             } else {
                 let k = s.pick(Kind::Sched, "sched", r.len());
-                Some(r[k])
+                if k == 0 && r.len() > 1 && s.postpone_on && s.pick(Kind::Postpone, "postpone", 2) == 1 {
+                    // the task that is next in line is set aside until nothing else is runnable
+                    s.tasks[r[0]].postponed = true;
+                    Some(r[1])
+                } else {
+                    Some(r[k])
+                }
             }
         };
         match id {
